@@ -200,7 +200,10 @@ func NewEnv(o Options) (*Env, error) {
 		Voter: &Voter{}, IRKeys: &IRFetcher{Keys: o.AlphabetKeys}, Managers: &Managers{},
 		ChainTime: &ChainTime{T: time.Unix(1_800_000_000, 0)}, NetState: &NetState{},
 	}
-	alpha := func() (keys.PublicKeys, error) { return o.AlphabetKeys, nil }
+	var alpha func() (keys.PublicKeys, error)
+	if o.Offline {
+		alpha = func() (keys.PublicKeys, error) { return o.AlphabetKeys, nil }
+	}
 	var err error
 	if e.FS, err = irfix.NewClient(o.FSURL, o.Key, &o.Contracts.Proxy, alpha); err != nil {
 		return nil, fmt.Errorf("fs chain client: %w", err)
